@@ -1357,6 +1357,29 @@ cdef class ParticleArray:
 
         """
         cdef BaseArray src_array, dst_array
+        cdef long n_self = self.get_number_of_particles()
+        cdef long n_source = source.get_number_of_particles()
+        # Resolve the default indices here, in units of particles: the
+        # defaults of ``copy_subset`` count array elements, which is wrong
+        # (and writes out of bounds) for properties with a stride.
+        if end_index < 0:
+            if start_index < 0:
+                if n_source != n_self:
+                    msg = 'Source length should be same as dest length'
+                    logger.error(msg)
+                    raise ValueError(msg)
+                if n_self == 0:
+                    return
+                start_index = 0
+            elif start_index > (n_self - 1):
+                msg = 'start_index beyond array length'
+                logger.error(msg)
+                raise ValueError(msg)
+            elif (n_self - start_index) > n_source:
+                msg = 'Not enough values in source'
+                logger.error(msg)
+                raise ValueError(msg)
+            end_index = n_self
         for prop_name in source.properties:
             if prop_name in self.properties:
                 src_array = source.get_carray(prop_name)
